@@ -3,7 +3,7 @@ SPEC = dict(
     title='Only root-controlled executables are ever run',
     props_file='Props/C18.v', props_mod='Props.C18',
     proof_files=['Proofs/ExecPerm.v', 'Drv/Perm.v'],
-    tie_vo=[],
+    tie_vo=['Proofs/LeafTie2_CheckFilePermissions.vo'],
     drivers=[dict(name='perm', drv_mod='Drv.Perm', drv_file='Drv/Perm.v', shard=700,
                   args={'quick': ['flips=400'], 'thorough': ['flips=6000']},
                   timeout={'quick': 600, 'thorough': 3000})],
